@@ -266,6 +266,16 @@ func (r *Transport) readLoop() {
 					return
 				}
 				if errors.Is(err, errors.ErrConnectionNormalClose) {
+					r.mu.Lock()
+					current := tr == r.transport
+					r.mu.Unlock()
+					if !current {
+						// the connection this read was pending on has been replaced (a redial closes the old one):
+						// reading goes on with the new one
+						continue
+					}
+					// the peer closed normally: no redial, and then writes must not go on being accepted either
+					r.cancel()
 					return
 				}
 
